@@ -303,7 +303,8 @@ def scenarios(tier, rnd):
                 out.append(Sc("garbage/%s/%d" % (tag, gl), stage, prefix + [("raw", bytes(rnd.randrange(256) for _ in range(gl)))], version))
         # oversize payloads that are really sent: reply and unsolicited (with and without a handler)
         pre_reply = [it for st, it in base if st in ("first", "gsv", "spv")]
-        for n in ((LIMIT, LIMIT + 1) if not thorough else (LIMIT - 1, LIMIT, LIMIT + 1, 2 * LIMIT)):
+        for n in ((1 << 10, (16 << 10) + 1, 64 << 10, 256 << 10, LIMIT, LIMIT + 1) if not thorough else
+                  (1 << 10, (16 << 10) - 1, (16 << 10) + 1, 64 << 10, 128 << 10, 256 << 10, 512 << 10, LIMIT - 1, LIMIT, LIMIT + 1, 2 * LIMIT)):
             out.append(Sc("oversize-reply/v%d/%d" % (version, n), "reply", pre_reply + [
                 ("user_send", "u0", 2), F(12, gen=(n, n), to="u0", ver=version), F(30, b"abc", mid=5, ver=version)], version, wd=3000))
         out.append(Sc("oversize-unsolicited/v%d" % version, "unsolicited", pre_reply + [
@@ -575,7 +576,20 @@ def device_scenarios(thorough, rnd):
         add("status-code/connect-refused/%d" % code, "utc", [], settle=5, family="status", spv_status=code, no_sentinel=True)
         add("status-code/set-reader-config-refused/%d" % code, "utc", [], settle=5, reconnect=True, family="status",
             src_status=code, close_status=code, no_sentinel=True)
+    # (6) the ConnectionAttemptEvent status of an otherwise valid first message: Connect looks at it on the goroutine that
+    # manages the device's connection (the llrp-level sweep covers all 65536 values; here the defined ones, their
+    # neighbours and extremes through a real device)
+    for code in first_status_codes(thorough, rnd):
+        add("first-status/%d" % code, "utc", [], settle=5, family="status", no_sentinel=True,
+            first1=ren_pl("utc", UTC0, tlvp(256, struct.pack(">H", code))).hex())
     return out
+
+
+def first_status_codes(thorough, rnd):
+    cs = {1, 2, 3, 4, 5, 6, 7, 8, 100, 255, 256, 257, 1000, 32767, 32768, 65534, 65535} | {rnd.randrange(65536) for _ in range(3)}
+    if thorough:
+        cs |= set(range(9, 64)) | {1 << k for k in range(16)}
+    return sorted(cs)
 
 
 def driver_status_codes(thorough, rnd):
@@ -646,7 +660,8 @@ def status_sweep(exe, tier, seed):
     CloseConnection (Shutdown's error), with the response type or an ErrorMessage; Error() called directly on what came back.
     -> (violations [(sig, text, replay)], coverage dict)"""
     rnd = random.Random(seed + 47)
-    reqs = [dict(op="decode", lo=0, hi=65535), dict(op="session", codes=session_codes(tier == "thorough", rnd))]
+    reqs = [dict(op="decode", lo=0, hi=65535), dict(op="session", codes=session_codes(tier == "thorough", rnd)),
+            dict(op="first", lo=0, hi=65535)]       # every ConnectionAttemptEvent status in an otherwise valid first message
     rc, lines, log = vlib.run_harness(exe, "TestVerifC10StatusSweep", "\n".join(json.dumps(r) for r in reqs) + "\n", timeout=600, tag="_sweep")
     out, cov = [], dict(decode_calls=0, session_calls=0)
     if len(lines) != len(reqs):
@@ -657,6 +672,14 @@ def status_sweep(exe, tier, seed):
         r = json.loads(l)
         cov[rq["op"] + "_calls"] = r["calls"]
         for kind, codes in sorted((r.get("panics") or {}).items()):
+            if rq["op"] == "first":
+                out.append(("first-message-status-panics", "Connect PANICS on its own goroutine (outside handleGuarded) for a fully valid first "
+                            "ReaderEventNotification whose ConnectionAttemptEvent status is one of %d values (%s); %s"
+                            % (len(codes), ", ".join(ranges(codes)[:8]), (r.get("panic_text") or {}).get(kind, "")),
+                            dict(kind="status-sweep", path=kind, codes=ranges(codes), first_code=codes[0],
+                                 first_message_payload="00f600160080000c0000000000000001" + "01000006%04x" % codes[0],
+                                 how="harness/llrp/c10_test.go TestVerifC10StatusSweep request %s" % json.dumps(dict(op="first", lo=codes[0], hi=codes[0])))))
+                continue
             out.append(("status-text-panics:%s" % kind.split(":")[0 if rq["op"] == "decode" else 1].replace("-errmsg", ""),
                         "Error() called directly on the error the client produced for a peer-chosen code PANICS for %d codes (%s) — %s; %s. "
                         "The device service logs such errors with err.Error() on goroutines that do not recover."
@@ -755,6 +778,26 @@ def probe_scenarios(thorough, rnd):
                         timeout_ms=100, spv_status=code))
         out.append(dict(name="probe/status-code/close-refused/%d" % code, first=first, config=dict(typ=12, phex=status_msg(code, b"")[0].hex()),
                         caps=ok_k, on_close="error-status", close_status=code, timeout_ms=100))
+    # the ConnectionAttemptEvent status of an otherwise valid first message, through probe
+    for code in first_status_codes(thorough, rnd):
+        out.append(dict(name="probe/first-status/%d" % code, first=ren_pl("utc", UTC0, tlvp(256, struct.pack(">H", code))).hex(),
+                        config=ok_c, caps=ok_k, on_close="answer", timeout_ms=100))
+    # replies of every size the client must buffer (1 KiB .. just under the limit), complete and valid (the real content
+    # followed by Custom parameters): whatever buffering limit the consumer's client applies, the reply is used — the
+    # reader is identified from it — or the exchange FAILS; it is never taken for an empty reply
+    def padded(base, n):
+        pad, k = b"", 0
+        while len(base) + len(pad) < n:
+            room = min(60000, n - len(base) - len(pad))
+            pad += tlvp(1023, struct.pack(">II", 25882, 7) + payload(600 + k, max(room - 12, 0)))
+            k += 1
+        return base + pad
+    for n in ([1 << 10, (16 << 10) - 60, (16 << 10) + 1, 20 << 10, 64 << 10, 100 << 10, 256 << 10, LIMIT - 70000] if not thorough else
+              [1 << 10, 4 << 10, (16 << 10) - 60, (16 << 10) + 1, 20 << 10, 32 << 10, 64 << 10, 100 << 10, 128 << 10, 256 << 10, 512 << 10, LIMIT - 70000]):
+        out.append(dict(name="probe/reply-size/config/%d" % n, first=first, config=dict(typ=12, phex=padded(config_ok, n).hex()), caps=ok_k,
+                        on_close="answer", timeout_ms=300, reply_size=dict(which="GetReaderConfigResponse", n=n, want="SpeedwayR-34-56-78")))
+        out.append(dict(name="probe/reply-size/caps/%d" % n, first=first, config=ok_c, caps=dict(typ=11, phex=padded(caps_ok, n).hex()),
+                        on_close="answer", timeout_ms=300, reply_size=dict(which="GetReaderCapabilitiesResponse", n=n, want="SpeedwayR-34-56-78")))
     # both requests fail
     for mname, m in modes(12, config_ok)[1:4]:
         add("config-%s+caps-%s/answer" % (mname, mname), m, dict(modes(11, caps_ok))[mname], "answer")
@@ -771,6 +814,16 @@ def probe_check(sc, go, crash_log):
         if "did not return" in (go.get("note") or ""):
             return [("probe-wedged", "probe did not return within 30 s although its timeout is %d ms: %s" % (sc["timeout_ms"], sc["name"]))]
         return [("probe-harness", "scenario did not run: %s" % (go.get("error") or go.get("note")))]
+    rs = sc.get("reply_size")
+    # an ERROR is an acceptable outcome (the exchange failed and probe said so); a discovery that contradicts the bytes the
+    # host sent — the reply taken for an empty one — is not
+    if rs and go.get("returned") and go["err"] == "nil" and go["device"] != rs["want"]:
+        return [("probe-drops-valid-reply:%s" % rs["which"],
+                 "the host answered with a complete, valid %s of about %d bytes (within the documented buffering limit of %d bytes: the real "
+                 "content followed by Custom parameters); probe %s — a reply the client must buffer was not handed to its consumer: "
+                 "it was taken for an empty / absent reply instead of being used or reported as an error of the exchange"
+                 % (rs["which"], rs["n"], LIMIT, ("returned an error" if go["err"] != "nil" else "discovered the reader as %r instead of %r"
+                                                   % (go["device"], rs["want"]))))]
     if sc["name"].startswith("probe/ok/ok/answer") and not (go["err"] == "nil" and go["device"]):
         return [("probe-generator", "the well-behaved scripted host is not discovered (err=%s device=%r): the generator of this "
                  "family is off" % (go["err"], go["device"]))]
@@ -815,7 +868,25 @@ def probe_model(scs, answers, crash_of):
 
 def run_probe_family(exe, tier, seed, only=None):
     scs = probe_scenarios(tier == "thorough", random.Random(seed + 43)) if only is None else [only]
-    answers, crashes = run_go(exe, [{k: v for k, v in sc.items() if k != "_"} for sc in scs], 900, test="TestVerifC10Probe", tag="p")
+    wire = [{k: v for k, v in sc.items() if k not in ("_", "reply_size")} for sc in scs]
+    # two supervised processes at once (these scenarios mostly wait)
+    halves, boxes = [list(range(k, len(wire), 2)) for k in range(2)], {}
+
+    def half(k):
+        boxes[k] = run_go(exe, [wire[i] for i in halves[k]], 900, test="TestVerifC10Probe", tag="p%d" % k)
+    ths = [threading.Thread(target=half, args=(k,)) for k in range(2)] if len(wire) > 4 else []
+    for t in ths:
+        t.start()
+    for t in ths:
+        t.join()
+    if ths:
+        answers, crashes = {}, []
+        for k in range(2):
+            a, c = boxes.get(k, ({}, []))
+            answers.update({halves[k][j]: v for j, v in a.items()})
+            crashes += [(halves[k][j], log) for j, log in c]
+    else:
+        answers, crashes = run_go(exe, wire, 900, test="TestVerifC10Probe", tag="p")
     crash_of = dict(crashes)
     by_sig = {}
     for i, sc in enumerate(scs):
@@ -824,7 +895,7 @@ def run_probe_family(exe, tier, seed, only=None):
             continue
         fails = probe_check(sc, go, cl)
         if fails and cl is None and fails[0][0] == "probe-wedged":
-            a2, c2 = run_go(exe, [sc], 120, test="TestVerifC10Probe", tag="p2")
+            a2, c2 = run_go(exe, [wire[i]], 120, test="TestVerifC10Probe", tag="p2")
             go, cl = a2.get(0), dict(c2).get(0)
             fails = probe_check(sc, go, cl) if (go is not None or cl is not None) else fails
         for sig, text in fails:
